@@ -730,8 +730,32 @@ func (m *Machine) opSwap(t *rapid.T, adversarial bool) bool {
 
 func (m *Machine) opMeltQuote(t *rapid.T) bool {
 	w := m.W
-	kind := rapid.SampledFrom([]string{"external", "external", "external_msat", "internal", "internal", "mpp", "internal_mpp", "internal_mpp"}).Draw(t, "mq_kind")
+	kind := rapid.SampledFrom([]string{"external", "external", "external_msat", "internal", "internal", "mpp", "internal_mpp", "internal_mpp", "same_hash_other_invoice"}).Draw(t, "mq_kind")
 	switch kind {
+	case "same_hash_other_invoice":
+		// somebody else's invoice over a small amount that re-uses the payment hash of one of this mint's own
+		// invoices (hashes are public): melting it must not count as a payment of that mint quote
+		q := m.pickMintQuote(t, func(q *world.MMintQuote) bool {
+			for _, mq := range w.M.MeltQuotes {
+				if mq.Hash == q.Hash {
+					return false
+				}
+			}
+			return q.Amount >= 2 && q.Amount <= 1<<30
+		})
+		if q == nil {
+			return false
+		}
+		small := rapid.Uint64Range(1, min(q.Amount-1, 64)).Draw(t, "forged_amount")
+		inv := w.Net.ForgedInvoice(q.Hash, small*1000)
+		mq, err := w.RequestMeltQuote(inv.Request, 0)
+		m.logf("melt quote for a foreign invoice of %d sat with the payment hash of own mint quote %d (%d sat, payments %d, issuances %d): err=%v", small, q.Idx, q.Amount, q.Payments(), q.Issuances, err)
+		if err == nil {
+			mq.ForeignSameHash = true
+			m.Count["melt_quote_same_hash_other_invoice"]++
+		}
+		m.Count["adversarial_reached"]++
+		return true
 	case "internal_mpp":
 		// partial payment of an invoice of this very mint (any quote state): must be refused
 		if !w.Cfg.MPP {
